@@ -134,7 +134,7 @@ def sweeps(tier):
         for code, extra in ((1, []), (5, [(G.CONTENT_FORMAT, b"")]), (3, [])):
             for ov in (b"", b"\x00", b"\x01", b"\x02", b"\x00\x00\x01"):
                 for hact in ("69/-/68", "132/-/-", "0/-/-", "65/4=aa/-", "96/-/01", "69/4=aa+6=05/68",
-                             "69/12=28+4=aa/68", "132/6=05+27=06/-", "69/14=01+6=07+4=bb/-"):
+                             "69/12=28+4=aa/68", "132/6=05+27=06/-", "69/14=01+6=07+4=bb/-", "31/-/-", "64/-/-", "95/4=01/-"):
                     for ty in (0, 1):
                         for b2 in (False, True):
                             o = [(G.URI_PATH, path), (G.OBSERVE, ov)] + extra + ([(G.BLOCK2, b"\x06")] if b2 else [])
